@@ -37,11 +37,16 @@ ISO_NL = {'iso_clpt_donnell_bc2': 'compmech/conecyl/clpt/iso_clpt_donnell_bc2_no
           'iso_clpt_donnell_bc3': 'compmech/conecyl/clpt/iso_clpt_donnell_bc3_nonlinear.pyx'}
 
 
+GRID_CALLS = []      # (nx, ny, num_cores, method) of every integratev call of the current run
+
+
 def one_point_integrator(ctx):
     x, t, alpha = ctx.V('xq'), ctx.V('tq'), ctx.V('alphaq')
+    del GRID_CALLS[:]
 
     def integratev(f, fdim, out, xa, xb, nx, ya, yb, ny, args, num_cores, method):
         from ..cysym import CArray, Ptr
+        GRID_CALLS.append((int(nx), int(ny), int(num_cores), str(method)))
         xs, ts, al, be = CArray([x]), CArray([t]), CArray([alpha]), CArray([1])
         f(1, Ptr(xs), Ptr(ts), out, Ptr(al), Ptr(be), args)
         return 0
@@ -167,6 +172,8 @@ def build(cfg, values=None):
             else:
                 cc.F = F
             cc.ni_num_cores, cc.ni_method, cc.nx, cc.nt = 1, 'trapz2d', 1, 1
+            if cfg.get('grid'):
+                cc.ni_num_cores, cc.nx, cc.nt = cfg['grid']
             cc.c0, cc.m0, cc.n0 = c0, 0, 0
             if cfg.get('mgi'):
                 m0_, n0_ = cfg['mgi']
@@ -190,6 +197,11 @@ def build(cfg, values=None):
                     fs[t_] = np.asarray(cc.calc_fint(cv, inc=inc, return_u=True, silent=True), dtype=object)
                 for k in range(len(keep)):
                     obs.append(('kTuu-is-jacobian-of-calc_fint[%d,%d]' % (k, j), 12 * Sym.lift(kTuu.get((k, j), 0)), -fs[2][k] + 8 * fs[1][k] - 8 * fs[-1][k] + fs[-2][k]))
+            # the integration grid handed to the kernels is the one of the definition (nx x nt points), whatever the number of threads
+            for q_, (gx, gy, gc, gm) in enumerate(GRID_CALLS):
+                if (gx, gy, gc, gm) != (cc.nx, cc.nt, cc.ni_num_cores, cc.ni_method):
+                    obs.append(('integration-grid-of-the-definition[call %d: nx=%d nt=%d cores=%d %s]' % (q_, gx, gy, gc, gm), Sym.lift(1), Sym.lift(0)))
+                    break
             f0 = np.asarray(cc.calc_fint(np.array([0] * len(keep), dtype=object), inc=0, return_u=True, silent=True), dtype=object)
             for k in range(len(keep)):
                 obs.append(('calc_fint-of-undeformed-shell[%d]' % k, f0[k], 0))
@@ -332,6 +344,8 @@ def configs(tier, seed):
                         'm': 2, 'n': 1, 'timeout_ms': 600000})
         if not quick:
             out.append({'variant': 'jacobian', 'model': model, 'mn': (3, 2, 2), 'cone': True, 'group': 'tangent=jacobian:%s:cone-322' % model, 'm': 3, 'n': 1, 'timeout_ms': 1200000})
+    out.append({'variant': 'api', 'model': 'clpt_donnell_bc1', 'mn': (2, 2, 1), 'cone': True, 'pd': (False, False, True), 'grid': (3, 8, 5),
+                'group': 'ConeCyl.kTuu=d calc_fint/dcu:clpt_donnell_bc1:grid-8x5-on-3-threads', 'm': 2, 'n': 1, 'timeout_ms': 600000})
     for model in sorted(ISO_NL):
         for cone in ((True,) if quick else (True, False)):
             out.append({'variant': 'api', 'model': model, 'mn': (2, 2, 1), 'cone': cone, 'pd': (True, True, True), 'group': 'ConeCyl.kTuu=d calc_fint/dcu:%s:%s' % (model, 'cone' if cone else 'cylinder'),
